@@ -382,6 +382,17 @@ class Ctx:
         s, pc = self.sym(body)
         e = ("call", callee, tuple(args), ())
         alts = sym.predicate_alternatives(body.crate, (e, not value), any_vis=True)
+        if alts is not None:
+            # read the alternatives down to atoms over fields (`x.filter(p).is_some()` etc.)
+            dnf = set()
+            for alt in alts:
+                cur = frozenset()
+                for (x, y) in alt:
+                    a_ = sym.normalise_atom(x, y) if isinstance(y, bool) else (x, y)
+                    cur = sym._add_atom(cur, a_) if cur is not None else None
+                if cur is not None:
+                    dnf.add(cur)
+            alts = [tuple(d) for d in self._expand_atoms(body, dnf)]
         res = []
         for d in pc.conditions(blk):
             direct = any(x[0] == "call" and x[1] == callee and tuple(x[2]) == tuple(args) and v == value for (x, v) in d)
@@ -472,8 +483,44 @@ class Ctx:
                     a = sym.normalise_atom(e, want)
                     if not any(e2 == a[0] and sym._contradict(v2, a[1]) for (e2, v2) in cs):
                         out.add(cs | {a})
-        out = sym._absorb(out)
+        out = self._expand_atoms(body, sym._absorb(out))
         return [set(sym.atom_str(e, v, s) for e, v in cs) for cs in out]
+
+    def _expand_atoms(self, body, dnf, fuel=3):
+        """atoms that read through a definition (`x.filter(p).is_some()`, a private predicate,
+        `helper(x).is_some()`) replaced by what they mean"""
+        if fuel == 0:
+            return dnf
+        out, changed = set(), False
+        for cs in dnf:
+            tgt = None
+            for at in cs:
+                alts = sym.predicate_alternatives(body.crate, at)
+                if alts:
+                    tgt = (at, alts)
+                    break
+            if tgt is None:
+                out.add(cs)
+                continue
+            changed = True
+            at, alts = tgt
+            rest = frozenset(c for c in cs if c != at)
+            for alt in alts[:8]:
+                cur = rest
+                for (x, y) in alt:
+                    a_ = sym.normalise_atom(x, y) if isinstance(y, bool) else (x, y)
+                    f_ = sym.fold_atom(a_[0], a_[1])
+                    if f_ is True:
+                        continue
+                    if f_ is False:
+                        cur = None
+                        break
+                    cur = sym._add_atom(cur, a_)
+                    if cur is None:
+                        break
+                if cur is not None:
+                    out.add(cur)
+        return self._expand_atoms(body, sym._absorb(out), fuel - 1) if changed else out
 
     def true_conditions_raw(self, body):
         """true_conditions as sets of (expr, value) atoms"""
